@@ -58,7 +58,50 @@ func viewCacheDir() string {
 	}
 	ownViewCache = d
 	os.Setenv("BCHVERIF_VIEWCACHE", d)
+	seedViewCache(d)
 	return d
+}
+
+// seedViewCache hard-links the entries of the default Go build cache into the private one, so that the standard
+// library and the third-party dependencies are not recompiled for every failing check (that cost half a CPU-hour).
+// Cache entries are immutable and content-addressed; new entries land in the private directory only and go away
+// with it.  Best effort: on any error (other file system, no default cache) the private cache simply starts cold.
+func seedViewCache(dst string) {
+	src := os.Getenv("GOCACHE")
+	if src == "" {
+		out, err := exec.Command("go", "env", "GOCACHE").Output()
+		if err != nil {
+			return
+		}
+		src = strings.TrimSpace(string(out))
+	}
+	if src == "" || src == "off" {
+		return
+	}
+	n := 0
+	filepath.WalkDir(src, func(p string, de os.DirEntry, err error) error {
+		if err != nil {
+			return nil
+		}
+		rel, rerr := filepath.Rel(src, p)
+		if rerr != nil || rel == "." {
+			return nil
+		}
+		if de.IsDir() {
+			os.MkdirAll(filepath.Join(dst, rel), 0o755)
+			return nil
+		}
+		if !de.Type().IsRegular() || rel == "trim.txt" {
+			return nil
+		}
+		if os.Link(p, filepath.Join(dst, rel)) != nil {
+			n++
+			if n > 20 {
+				return filepath.SkipAll
+			}
+		}
+		return nil
+	})
 }
 
 func exitWith(code int) {
